@@ -523,7 +523,7 @@ int verif_poll(struct pollfd *fds, nfds_t nfds, int timeout)
       }
     }
     fds[i].revents = re;
-    if (i < 12) {
+    if (i < 16) {
       g.pl.poll_fdv[i] = fd;
       g.pl.poll_evv[i] = fds[i].events;
       g.pl.poll_rev[i] = re;
@@ -722,7 +722,7 @@ int verif_execvp(const char *file, char *const argv[])
     uint32_t keep = 7u | MASK_OF(exit_fd);
     V_ASSERT("C11/exec.nothing_else_inherited",
              (g.fds.open & ~g.fds.cloexec & ~keep) == 0);
-    V_ASSERT("C11/exec.exit_handle_inherited",
+    V_ASSERT("C01+C08+C09+C11/exec.exit_handle_inherited",
              IS_OPEN(exit_fd) && exit_fd > 2 && (g.fds.cloexec & BIT(exit_fd)) == 0 &&
                  g.fds.obj[exit_fd] == gc.want_exit_obj);
   }
